@@ -66,6 +66,7 @@ impl Prop for C10Prop {
             lifecycle_pct: 20,
             keyings: 1,
             boundary_per_mille: 6,
+            huge_one_in: 1000,
         }
         .gen("C10", seed, idx);
         // H is the point here: the same graph under >= 8 hash keyings (keying 0 always included)
@@ -231,7 +232,7 @@ impl Prop for C10Prop {
         }
     }
     fn rule(&self) -> String {
-        "graphs of all 8 kinds, n <= 40, biased to nested strongly connected components (cycles sharing nodes, cycles of cycles, DAG + back edges), long cycles, many small components, isolated nodes, self-loops, parallel edges; each graph analysed under 8 (quick) / 16 (thorough) hash keyings (the SCC routine's visit order follows HashSet iteration): connected / weakly / strongly connected components are set partitions equal to the classes of the Warshall closure, number_of_connected_components, node_connected_component(x) for every x, breadth_first_search(x) for every x, bfs_equal_size_partitions(k) for k in {1,2,3,n,n+1,random}, WrongMethod on the other kind. evaluations = graphs; each is run under every keying. distinct_nontrivial = distinct graphs with >= 2 edges".into()
+        "graphs of all 8 kinds, n <= 40, biased to nested strongly connected components (cycles sharing nodes, cycles of cycles, DAG + back edges), long cycles, many small components, isolated nodes, self-loops, parallel edges; each graph analysed under 8 (quick) / 16 (thorough) hash keyings (the SCC routine's visit order follows HashSet iteration): connected / weakly / strongly connected components are set partitions equal to the classes of the Warshall closure, number_of_connected_components, node_connected_component(x) for every x, breadth_first_search(x) for every x, bfs_equal_size_partitions(k) for k in {1,2,3,n,n+1,random}, WrongMethod on the other kind. evaluations = graphs; each is run under every keying. distinct_nontrivial = distinct graphs with >= 2 edges; one case in 1000 is a dense graph (1-3 blocks, 60-300 nodes) with 2 100 - 12 500 stored edges under a pool of 2-16 workers (strategy thresholds)".into()
     }
     fn assumptions(&self) -> Vec<String> {
         vec!["bfs_equal_size_partitions: only k parts, exact cover and size <= floor(n/k)+1 are required".into()]
